@@ -159,6 +159,22 @@ func VH_C15_WeekNextSeparate() {
 		z := w.Next(0, true)
 		vAssert("sep-zero", z.year == y && z.month == m && z.day == d)
 	})
+	// several steps in one call walk the same sequence as single steps (the one-step law above then gives every n by induction
+	// on the call's own loop: the loop state after k steps is compared with a fresh start from the k-th position)
+	samePos := func(a, b *SolarWeek) bool {
+		ay, am, ai := vhPos(a)
+		by, bm, bi := vhPos(b)
+		return ay == by && am == bm && ai == bi && a.start == b.start
+	}
+	for _, k := range []int{2, 3} {
+		k := k
+		vEach(func() {
+			vAssert("sep-multi-forward", samePos(w.Next(k, true), w.Next(k-1, true).Next(1, true)))
+		})
+		vEach(func() {
+			vAssert("sep-multi-backward", samePos(w.Next(-k, true), w.Next(-(k-1), true).Next(-1, true)))
+		})
+	}
 	vReach("C15c")
 }
 
